@@ -141,7 +141,8 @@ class _WriteProxy:
         self.close()
 
     def fileno(self):
-        return self._raw.fileno()
+        # no descriptor-level shortcuts (sendfile / copy_file_range): every byte goes through write()
+        raise io.UnsupportedOperation("fileno")
 
     def writable(self):
         return True
@@ -160,6 +161,8 @@ def _open(file, mode="r", *a, **k):
     if (lc is not None and isinstance(file, (str, bytes, os.PathLike)) and mode in ("wb", "bw", "xb", "ab") and not a
             and _under_scratch(file)):
         raw = _real_open(file, mode, buffering=0)
+        # the file now exists (created or truncated) but holds none of the new data yet: a step boundary
+        lc.boundary(("opened-for-writing", lc.rel(file)))
         return _WriteProxy(raw, os.fspath(file), lc.world.write_buffer)
     return _real_open(file, mode, *a, **k)
 
